@@ -81,11 +81,8 @@ Qed.
 Theorem g_getLevel_eq r p : 0 <= p -> g_getLevel r p = getLevel r p.
 Proof.
   intros H. destruct r; cbv beta iota zeta delta [g_getLevel getLevel].
-  - pose proof (g_getLevel_Pwc_loop1_eq 42 p 0) as E. destruct (g_getLevel_Pwc_loop1 42 p 0) as [a b]. exact E.
-  - split_ifs; try reflexivity. apply (f_equal (fun z => z + 1)), g_intlog2_eq. lia.
-  - split_ifs; try reflexivity. apply (f_equal (fun z => z + 1)), g_intlog2_eq. lia.
-  - apply g_intlog2_eq. lia.
-  - split_ifs; try reflexivity. apply (f_equal (fun z => z + 1)), g_intlog2_eq. lia.
+  1: { pose proof (g_getLevel_Pwc_loop1_eq 42 p 0) as E. destruct (g_getLevel_Pwc_loop1 42 p 0) as [a b]. exact E. }
+  all: split_ifs; rewrite ?g_intlog2_eq by lia; first [ reflexivity | lia ].
 Qed.
 
 (* all seven functions at once *)
